@@ -218,35 +218,66 @@ NEUTRALISED = {
 
 rows = []
 os.makedirs(os.path.join(HERE, "seeded"), exist_ok=True)
-for name in sorted(os.listdir(src)):
-    d = os.path.join(src, name)
-    if not re.fullmatch(r"C\d\d-\d+", name) or not os.path.isfile(os.path.join(d, "patch.diff")):
-        continue
+RND = {"1": 1, "2": 1, "3": 2, "4": 2, "5": 3, "6": 3, "7": 4, "8": 4, "9": 5, "10": 5, "11": 6, "12": 6, "13": 7, "14": 7, "15": 8, "16": 8, "17": 9, "18": 10}
+
+
+def parse_result(name):
     resf = os.path.join(resdir, name + ".txt")
     if not os.path.isfile(resf):
+        return None
+    txt = open(resf, errors="replace").read()
+    m = re.search(r"demo: changed_tree_rc=(\d+) unchanged_tree_rc=(\d+)", txt)
+    cm = re.search(r"check=(C\d\d) tier=(\w+) exit=(\d+) violations=(\d+) :: ?(.*)", txt)
+    return {
+        "txt": txt, "build": "build=ok" in txt, "suite": "suite=green" in txt, "fast": "SEED_FAST" in txt,
+        "d1": int(m.group(1)) if m else -1, "d0": int(m.group(2)) if m else -1,
+        "chk": cm.group(1) if cm else "?", "tier": cm.group(2) if cm else "?", "rc": int(cm.group(3)) if cm else -1,
+        "nv": int(cm.group(4)) if cm else 0, "first": cm.group(5).strip() if cm else "",
+    }
+
+
+names = set(n for n in os.listdir(src) if re.fullmatch(r"C\d\d-\d+", n) and os.path.isfile(os.path.join(src, n, "patch.diff")))
+names |= set(n for n in os.listdir(os.path.join(HERE, "seeded")) if re.fullmatch(r"C\d\d-\d+", n))
+for name in sorted(names):
+    d = os.path.join(src, name)
+    out = os.path.join(HERE, "seeded", name)
+    r = parse_result(name)
+    if not os.path.isfile(os.path.join(d, "patch.diff")):
+        # kept in an earlier round (delivery directory gone): the stored meta.json stands; a re-sweep result
+        # (SEED_FAST: build + check only) refreshes what the check said
+        new = json.load(open(os.path.join(out, "meta.json")))
+        if r and r["build"] and r["chk"] != "?" and not new.get("neutralised_by_repair"):
+            new["check"] = {"id": r["chk"], "tier": r["tier"], "exit": r["rc"], "violation_lines": r["nv"], "first_violation": r["first"][:300]}
+            new["caught"] = r["rc"] == 1 and r["nv"] > 0
+            json.dump(new, open(os.path.join(out, "meta.json"), "w"), indent=1, ensure_ascii=False)
+        rows.append(new)
+        continue
+    if r is None:
         print("no confirmation run for", name, file=sys.stderr)
         continue
-    txt = open(resf, errors="replace").read()
-    build = "build=ok" in txt
-    suite = "suite=green" in txt
-    m = re.search(r"demo: changed_tree_rc=(\d+) unchanged_tree_rc=(\d+)", txt)
-    d1, d0 = (int(m.group(1)), int(m.group(2))) if m else (-1, -1)
-    cm = re.search(r"check=(C\d\d) tier=(\w+) exit=(\d+) violations=(\d+) :: ?(.*)", txt)
-    chk, tier, rc, nv, first = (cm.group(1), cm.group(2), int(cm.group(3)), int(cm.group(4)), cm.group(5).strip()) if cm else ("?", "?", -1, 0, "")
+    txt, build, suite, d1, d0 = r["txt"], r["build"], r["suite"], r["d1"], r["d0"]
+    chk, tier, rc, nv, first = r["chk"], r["tier"], r["rc"], r["nv"], r["first"]
+    prevmeta = None
+    try:
+        prevmeta = json.load(open(os.path.join(out, "meta.json")))
+    except (OSError, ValueError):
+        pass
+    if r["fast"] and prevmeta:
+        build_ok = build
+        suite, d1, d0 = prevmeta["confirmation"]["pinned_suite_green"], prevmeta["confirmation"]["demo_exit_changed_tree"], prevmeta["confirmation"]["demo_exit_unchanged_tree"]
     confirmed = build and suite and d1 not in (0, -1) and d0 == 0
     neutral = name in NEUTRALISED
     if not confirmed and not neutral:
         print("NOT KEPT (confirmation failed):", name, txt.strip().splitlines()[-3:], file=sys.stderr)
         continue
     meta = json.load(open(os.path.join(d, "meta.json")))
-    out = os.path.join(HERE, "seeded", name)
     os.makedirs(out, exist_ok=True)
     for f in os.listdir(d):
         if f in ("patch.diff", "demo.sh") or f.endswith("_test.go"):
             if f == "patch.diff" and os.path.exists(os.path.join(out, "patch.as-delivered.diff")):
                 continue  # re-diffed against the current tree by hand (the delivered patch is kept next to it)
             shutil.copy(os.path.join(d, f), os.path.join(out, f))
-    rnd = {"1": 1, "2": 1, "3": 2, "4": 2, "5": 3, "6": 3, "7": 4, "8": 4, "9": 5, "10": 5, "11": 6, "12": 6, "13": 7, "14": 7, "15": 8, "16": 8, "17": 9}[name.split("-")[1]]
+    rnd = RND[name.split("-")[1]]
     new = {
         "id": name,
         "property": meta.get("property", name[:3]),
@@ -273,12 +304,8 @@ for name in sorted(os.listdir(src)):
     if neutral:
         new["neutralised_by_repair"] = NEUTRALISED[name]
         new["caught"] = False
-    try:
-        prev = json.load(open(os.path.join(out, "meta.json")))
-        if "patch_note" in prev:
-            new["patch_note"] = prev["patch_note"]  # hand-written remark on a re-diffed patch survives regeneration
-    except (OSError, ValueError):
-        pass
+    if prevmeta and "patch_note" in prevmeta:
+        new["patch_note"] = prevmeta["patch_note"]  # hand-written remark on a re-diffed patch survives regeneration
     json.dump(new, open(os.path.join(out, "meta.json"), "w"), indent=1, ensure_ascii=False)
     rows.append(new)
 
